@@ -287,7 +287,8 @@ def c16_codecs(r, seed, tier, model_ok):
         else: want.append("E 5,-39")
     strs = []
     for _ in range(N(tier, 1500, 40000)):
-        s = "".join(chr(R.choice([R.randrange(0x20, 0x7F), R.randrange(0x80, 0x800), R.randrange(0x800, 0xD800), R.randrange(0xE000, 0x10000), R.randrange(0x10000, 0x110000), 0x7F, 0x80, 0x7FF, 0x800, 0xFFFF, 0x10000, 0x10FFFF])) for _ in range(R.randrange(0, 8)))
+        s = "".join(chr(R.choice([R.randrange(0x20, 0x7F), R.randrange(0x80, 0x800), R.randrange(0x800, 0xD800), R.randrange(0xE000, 0x10000), R.randrange(0x10000, 0x110000), 0x7F, 0x80, 0x7FF, 0x800, 0xFFFF, 0x10000, 0x10FFFF, 0xFEFF, 0xFFFE, 0])) for _ in range(R.randrange(0, 8)))
+        if R.random() < .15: s = R.choice(["\ufeff", "\ufffe", "\ufeff\ufeff", "\x00"]) + s      # code points that look like byte-order marks are ordinary characters of the string
         w = R.choice([1, 2, 4]); order = None if w == 1 else R.choice([None, "le", "be"]); strs.append((s, w, order))
     def bytes_lit(bs): return f"({E(int.from_bytes(bs, 'little'))} ㄴ {E(len(bs))} ㅂ ㅂ ㅂㅎㄷ ㅎㄷ ㅎㄴ)" if bs else "(ㄱ ㄴ ㄱ ㅂ ㅂ ㅂㅎㄷ ㅎㄷ ㅎㄴ)"
     for s, w, order in strs:
@@ -441,7 +442,10 @@ def c18_cli(r, seed, tier, model_ok):
         elif k < .4: progs.append(("", (), ("status", 0), "empty"))
         elif k < .5: progs.append((f"{E(v)} {E(v)}", (), ("error",), "two-expressions"))
         elif k < .6: progs.append((R.choice(["ㅈㅈㅎㄱ", "ㄱ ㅁㅈㅎㄴ", "ㄱ ㄴ ㅁㄹㅎㄷ", "ㄴ ㅅㅅㅎㄴ"]), (), ("error",), "other-kind"))
-        elif k < .75: args = [str(R.randrange(0, 9)) for _ in range(R.randrange(0, 3))]; progs.append((f"ㄱㅇㄱ ㅈㄷㅎㄴ ㅎ" if args else f"{E(v)} ㅎ", tuple(args), ("status", len(args[0]) if args else v), "function"))
+        elif k < .75:
+            args = [R.choice(["", "", "a", "bc", " ", "0", "한글", "x y", "-c", "--"]) for _ in range(R.randrange(0, 5))]
+            if args: i = R.randrange(len(args)); progs.append((f"{E(i)}ㅇㄱ ㅈㄷㅎㄴ ㅎ", tuple(args), ("status", len(args[i])), "function"))      # length of the i-th argument string
+            else: progs.append((f"{E(v)} ㅎ", (), ("status", v), "function"))
         elif k < .9: progs.append((f"({E(v)} ㅁㅈㅎㄴ ㅈㄹㅎㄴ) ({E(v)} ㄱㅅㅎㄴ ㅎ) ㄱㄹㅎㄷ", (), ("status+out", v, f"{v}\n"), "io"))
         else: progs.append((f"(ㄹㅎㄱ) ((ㄱㅇㄱ ㅈㄷㅎㄴ) ㄱㅅㅎㄴ ㅎ) ㄱㄹㅎㄷ", (), ("status", 2), "io-read"))
     for text, argv, want, kind in progs:
@@ -457,4 +461,6 @@ def c18_cli(r, seed, tier, model_ok):
     for v in [0, 3, 255, 256, 257][:N(tier, 3, 5)]:
         p = subprocess.run([vlib.PY, "-m", "pbhhg_py.cli", "-c", E(v)], cwd=vlib.REPO, capture_output=True, text=True, env=dict(os.environ, PYTHONPATH=vlib.REPO)); n += 1; cnt["process"] += 1
         if p.returncode != v % 256: bad.append(dict(program=f"python -m pbhhg_py.cli -c '{E(v)}'", impl=f"exit {p.returncode} stderr={p.stderr[-200:]}", model=f"exit {v % 256}", which=["exit-status"]))
+    p = subprocess.run([vlib.PY, "-m", "pbhhg_py.cli", "-c", "ㄴㅇㄱ ㅈㄷㅎㄴ ㅎ", "ab", "", "cde"], cwd=vlib.REPO, capture_output=True, text=True, env=dict(os.environ, PYTHONPATH=vlib.REPO)); n += 1
+    if p.returncode != 0: bad.append(dict(program="python -m pbhhg_py.cli -c 'ㄴㅇㄱ ㅈㄷㅎㄴ ㅎ' ab '' cde", impl=f"exit {p.returncode} stderr={p.stderr[-200:]}", model="exit 0 (length of the second argument, the empty string)", which=["exit-status"]))
     r.slice("cli_run", n, len({p[0] + str(p[1]) for p in progs}), [progs[0][0]], dict(cnt), "cli.run in-process on generated single-expression programs x argument vectors + real processes", bad[:40])
